@@ -3,7 +3,8 @@ package main
 // The v2 module behind the driver's srvModule interface: ONE real server with three filters and resources whose methods
 // echo what they were given (path keys, query, the per-request value a filter put in the context) and hand back objects
 // SHARED between all requests (error responses with and without a Message, success values).  srv_root.go is this file for
-// the root module (generated with the sed command in checks/c17.py; import paths and identifiers only).
+// the root module (generated with the sed command in checks/c17.py; import paths and identifiers only).  What differs between
+// the modules beyond names (how a RequiredFields object is constructed) is in the hand-written req_*.go (one per module).
 
 import (
 	"context"
@@ -74,6 +75,117 @@ func (e *v2ent) String() string {
 		return "<nil>"
 	}
 	return fmt.Sprintf("key=%s ctx=%s method=%s query=%s", e.Key, e.Ctx, e.Method, e.Query)
+}
+
+// ---- a WIDE record in the style of the generated ones: wideN required int fields (two included records + its own) and
+// one optional string.  Field names and documents come from main.go (wideNames, wideIndex, wideJSON, wideRor2).
+
+// What a generated package keeps at package level for its records and what every request decoding them shares: the
+// XxxRequiredFields objects (and a read-only PathSpec).  v2freshSchema replaces all of them with newly constructed ones; it
+// is only called while no request is in flight (v2build), so that the requests that follow are the FIRST users of the new
+// objects.
+var (
+	v2wideRequired  v2required // the record: NewRequiredFields(<included records>...).Add(<own fields>...)
+	v2queryRequired v2required // the query parameters of finder byAll: the same names as query parameters
+	v2recRequired   v2required // the query parameters of finder byRec: one record-valued parameter
+)
+
+func v2freshSchema() {
+	a, b := wideN/4, wideN/2
+	v2wideRequired = v2newRequired([][]string{wideNames[:a], wideNames[a:b]}, wideNames[b:])
+	v2queryRequired = v2newRequired(nil, wideNames)
+	v2recRequired = v2newRequired(nil, []string{"rec"})
+	v2readOnly = restlicodec.NewPathSpec("method", "query")
+}
+
+type v2wide struct {
+	Vals []int32 // Vals[i] is field wideNames[i]
+	Got  int     // how many of them were decoded
+	Note string
+}
+
+func (*v2wide) NewInstance() *v2wide { return &v2wide{} }
+func (e *v2wide) MarshalRestLi(w restlicodec.Writer) error {
+	return w.WriteMap(func(kw func(string) restlicodec.Writer) error {
+		for i, n := range wideNames {
+			v := int32(0)
+			if i < len(e.Vals) {
+				v = e.Vals[i]
+			}
+			kw(n).WriteInt32(v)
+		}
+		if e.Note != "" {
+			kw("note").WriteString(e.Note)
+		}
+		return nil
+	})
+}
+func (e *v2wide) unmarshalField(r restlicodec.Reader, field string) (err error) {
+	if i, ok := wideIndex[field]; ok {
+		e.Vals[i], err = r.ReadInt32()
+		e.Got++
+		return err
+	}
+	if field == "note" {
+		e.Note, err = r.ReadString()
+		return err
+	}
+	return r.Skip()
+}
+func (e *v2wide) UnmarshalRestLi(r restlicodec.Reader) error {
+	e.Vals = make([]int32, wideN)
+	return r.ReadRecord(v2wideRequired, e.unmarshalField)
+}
+func (e *v2wide) sum() (s int64) {
+	for _, v := range e.Vals {
+		s += int64(v)
+	}
+	return s
+}
+func (e *v2wide) String() string {
+	if e == nil {
+		return "<nil>"
+	}
+	return fmt.Sprintf("wide got=%d sum=%d note=%s", e.Got, e.sum(), e.Note)
+}
+func v2newWide(note string) *v2wide {
+	e := &v2wide{Vals: make([]int32, wideN), Got: wideN, Note: note}
+	for i := range e.Vals {
+		e.Vals[i] = int32(i)
+	}
+	return e
+}
+
+// the resource refuses what the decoder should never have let through: a record that is not complete
+func (e *v2wide) check() error {
+	if e == nil || e.Got != wideN || e.sum() != wideSum {
+		return fmt.Errorf("incomplete wide record reached the resource: %s", e.String())
+	}
+	return nil
+}
+
+// query parameters of the finders of /wide: byAll takes every field of the record as a query parameter
+// (QueryParamsReader.ReadRecord), byRec takes the whole record as ONE parameter in the URL encoding (the ROR2 reader's
+// ReadRecord)
+type v2wideQuery struct{ all v2wide }
+
+func (*v2wideQuery) NewInstance() *v2wideQuery { return &v2wideQuery{} }
+func (q *v2wideQuery) DecodeQueryParams(reader restlicodec.QueryParamsReader) error {
+	q.all.Vals = make([]int32, wideN)
+	return reader.ReadRecord(v2queryRequired, q.all.unmarshalField)
+}
+
+type v2recQuery struct{ rec *v2wide }
+
+func (*v2recQuery) NewInstance() *v2recQuery { return &v2recQuery{} }
+func (q *v2recQuery) DecodeQueryParams(reader restlicodec.QueryParamsReader) error {
+	return reader.ReadRecord(v2recRequired, func(r restlicodec.Reader, field string) error {
+		if field == "rec" {
+			q.rec = &v2wide{}
+			return q.rec.UnmarshalRestLi(r)
+		}
+		return r.Skip()
+	})
 }
 
 // ---- objects the resource implementation shares between ALL requests
@@ -229,6 +341,7 @@ func v2segs(s string) []restli.ResourcePathSegment {
 }
 
 func v2build() *srvInst {
+	v2freshSchema() // no request is in flight: the requests through the new server are the first users of the new objects
 	sh := v2newShared()
 	srv := restli.NewServer(v2filterReq{}, v2filterPass{}, v2filterMethod{})
 	type RC = *restli.RequestContext
@@ -337,6 +450,69 @@ func v2build() *srvInst {
 	restli.RegisterGet(srv, single, func(ctx RC, rp *v2rp, _ *v2qp) (*v2ent, error) { v2echo(ctx, rp); return sh.ent, nil })
 	restli.RegisterUpdate(srv, single, none, func(ctx RC, rp *v2rp, _ *v2ent, _ *v2qp) error { v2echo(ctx, rp); return nil })
 	restli.RegisterAction(srv, single, "ping", func(ctx RC, rp *v2rp, _ common.EmptyRecord) error { v2echo(ctx, rp); return sh.errNilMsg })
+
+	// the wide record: the server decodes it from JSON bodies (create, update, batch update, action parameters), from query
+	// parameters (finder byAll) and from the URL encoding (finder byRec); the client decodes it from every response
+	wide := v2segs("wide+")
+	type updates = common.BatchResponse[string, *common.BatchEntityUpdateResponse]
+	restli.RegisterGet(srv, wide, func(ctx RC, rp *v2rp, _ *v2qp) (*v2wide, error) { return v2newWide(v2echo(ctx, rp).Ctx), nil })
+	restli.RegisterCreate(srv, wide, none, func(ctx RC, rp *v2rp, v *v2wide, _ *v2qp) (*common.CreatedEntity[string], error) {
+		e := v2echo(ctx, rp)
+		if err := v.check(); err != nil {
+			return nil, err
+		}
+		return &common.CreatedEntity[string]{Id: "wide-" + v.Note + "-" + e.Ctx}, nil
+	})
+	restli.RegisterUpdate(srv, wide, none, func(ctx RC, rp *v2rp, v *v2wide, _ *v2qp) error {
+		v2echo(ctx, rp)
+		if err := v.check(); err != nil {
+			return err
+		}
+		ctx.ResponseHeaders.Set("X-Updated", v.Note)
+		return nil
+	})
+	restli.RegisterBatchGet(srv, wide, func(ctx RC, rp *v2rp, keys []string, _ *restli.SliceBatchQueryParams[string]) (*common.BatchResponse[string, *v2wide], error) {
+		e := v2echo(ctx, rp)
+		r := &common.BatchResponse[string, *v2wide]{}
+		for _, k := range keys {
+			r.AddResult(k, v2newWide(e.Ctx))
+		}
+		return r, nil
+	})
+	restli.RegisterBatchUpdate(srv, wide, none, func(ctx RC, rp *v2rp, vs map[string]*v2wide, _ *restli.SliceBatchQueryParams[string]) (*updates, error) {
+		e := v2echo(ctx, rp)
+		r := &updates{}
+		for k, v := range vs {
+			if err := v.check(); err != nil {
+				return nil, err
+			}
+			r.AddResult(k+"-"+e.Ctx, &common.BatchEntityUpdateResponse{Status: 204})
+		}
+		return r, nil
+	})
+	restli.RegisterFinder(srv, wide, "byAll", func(ctx RC, rp *v2rp, q *v2wideQuery) (*common.Elements[*v2wide], error) {
+		e := v2echo(ctx, rp)
+		q.all.Note = e.Ctx
+		if err := q.all.check(); err != nil {
+			return nil, err
+		}
+		return &common.Elements[*v2wide]{Elements: []*v2wide{&q.all}}, nil
+	})
+	restli.RegisterFinder(srv, wide, "byRec", func(ctx RC, rp *v2rp, q *v2recQuery) (*common.Elements[*v2wide], error) {
+		v2echo(ctx, rp)
+		if err := q.rec.check(); err != nil {
+			return nil, err
+		}
+		return &common.Elements[*v2wide]{Elements: []*v2wide{q.rec}}, nil
+	})
+	restli.RegisterActionWithResults(srv, wide, "check", restlicodec.MarshalRestLi[string],
+		func(ctx RC, rp *v2rp, p *v2wide) (string, error) {
+			e := v2echo(ctx, rp)
+			if err := p.check(); err != nil {
+				return "", err
+			}
+			return "checked:" + p.Note + ":" + e.Ctx, nil
+		})
 
 	h := srv.Handler() // the ONE handler every request of the run goes through
 
@@ -466,6 +642,43 @@ func v2call(c *restli.Client, op, id string) string {
 	case "missing":
 		v, err := restli.Get[*v2ent](c, ctx, rp("/nosuch/"+id), nil)
 		out = v.String() + " " + v2errString(err)
+	case "wide-get":
+		v, err := restli.Get[*v2wide](c, ctx, rp("/wide/"+id), nil)
+		out = v.String() + " " + v2errString(err)
+	case "wide-create":
+		ce, err := restli.Create[string](c, ctx, rp("/wide"), v2newWide(id), nil, nil)
+		if ce != nil {
+			out = fmt.Sprintf("id=%s status=%d location=%s ", ce.Id, ce.Status, v2ptr(ce.Location))
+		}
+		out += v2errString(err)
+	case "wide-update":
+		out = v2errString(restli.Update(c, ctx, rp("/wide/"+id), v2newWide(id), nil, nil))
+	case "wide-find-all", "wide-find-rec": // both queries are longer than the tunnelling threshold
+		q := "q=byRec&rec=" + wideRor2(id)
+		if op == "wide-find-all" {
+			q = "q=byAll&" + wideQuery
+		}
+		r, err := restli.Find[*v2wide](c, ctx, rp("/wide"), restli.QueryParamsString(q))
+		if r != nil {
+			for _, e := range r.Elements {
+				out += "[" + e.String() + "]"
+			}
+		}
+		out += " " + v2errString(err)
+	case "wide-batch-get":
+		r, err := restli.BatchGet[string, *v2wide](c, ctx, rp("/wide"), []string{id, "k2"}, nil)
+		if r != nil {
+			keys := []string{}
+			for k, v := range r.Results {
+				keys = append(keys, k+"="+v.String())
+			}
+			sort.Strings(keys)
+			out = strings.Join(keys, ";")
+		}
+		out += " " + v2errString(err)
+	case "wide-action":
+		s, err := restli.DoActionRequestWithResults(c, ctx, rp("/wide"), restli.QueryParamsString("action=check"), v2newWide(id), restlicodec.UnmarshalRestLi[string])
+		out = s + " " + v2errString(err)
 	default:
 		panic("unknown client op " + op)
 	}
